@@ -104,6 +104,9 @@ def execute(spec, P, fault=None, observe=False, stride=1):
     # workload starts from the same global state, so entry points that (rightly or wrongly)
     # draw from it still replay exactly
     np.random.seed(20240915)
+    import tensorly.tenalg as _ta
+
+    _ta.set_backend(spec.get("tenalg", "core"))
     P.begin(hook)
     try:
         with warnings.catch_warnings():
@@ -121,6 +124,7 @@ def execute(spec, P, fault=None, observe=False, stride=1):
             outcome = "raised:" + type(ex).__name__
     finally:
         n = P.end()
+        _ta.set_backend("core")
     after = snap_args(kwargs)
     diffs = snapshot.diff(before, after, exempt)
     swallowed = state["exc"] is not None and outcome == "returned"
@@ -198,7 +202,7 @@ def run_workload(spec, P, rng, tier, cnt):
                 (fp, f"{spec['entry']}: argument {path} {kind} after fault {r['fired'][2]} at backend event {k} ({r['fired'][1]}); call {r['outcome']}",
                  dict(spec, fault={"event": k, "kind": r["fired"][2]}))
             )  # fmt: skip
-    dg = digest_obj([spec["entry"], spec["choices"], n, base["names"], base["transient"], base["outcome"], outcomes])
+    dg = digest_obj([spec["entry"], spec["choices"], spec.get("tenalg"), n, base["names"], base["transient"], base["outcome"], outcomes])
     return viols, dg, n, len(pts)
 
 
@@ -206,7 +210,7 @@ def gen_spec(rng, r, ents):
     e = ents[r % len(ents)]
     g = catalog.Choices(rng=rng, seed_value=rng.randrange(3), callback=(lambda *a, **k: None) if e["cb"] else None)
     e["build"](g)  # only to record a choice sequence of the right length
-    return {"entry": e["name"], "choices": list(g.rec), "seed": g.seed_value}
+    return {"entry": e["name"], "choices": list(g.rec), "seed": g.seed_value, "tenalg": "einsum" if rng.random() < 0.3 else "core"}
 
 
 def worker(chunk):
@@ -230,7 +234,8 @@ def worker(chunk):
             raise
         cnt.inc("runs")
         cnt.inc("entry:" + spec["entry"])
-        distinct.add(stable_hash(spec["entry"], tuple(spec["choices"]), spec["seed"]))
+        distinct.add(stable_hash(spec["entry"], tuple(spec["choices"]), spec["seed"], spec["tenalg"]))
+        cnt.inc("tenalg:" + spec["tenalg"])
         for fp, text, rspec in vs:
             k = per.get(fp, 0)
             per[fp] = k + 1
@@ -306,6 +311,15 @@ def minimise(spec, fp):
                 cands.append(ch[:i] + [0] + ch[i + 1 :])
                 if ch[i] > 1:
                     cands.append(ch[:i] + [ch[i] - 1] + ch[i + 1 :])
+        if cur.get("tenalg", "core") != "core":
+            try:
+                got = _reproduces(dict(cur, tenalg="core"), fp, P)
+            except Exception:
+                got = None
+            if got is not None:
+                cur = got
+                changed = True
+                continue
         for c in cands:
             if time.time() > t_end:
                 break
@@ -346,6 +360,7 @@ def make_replay(spec, fp, seed, run_idx):
         "entry": spec["entry"],
         "choices": spec["choices"],
         "seed": spec.get("seed", 0),
+        "tenalg": spec.get("tenalg", "core"),
         "fault": spec.get("fault"),
         "faults": [spec["fault"]] if spec.get("fault") else [],
         "schedule": [],
@@ -364,7 +379,7 @@ def replay_file(path):
     with open(path) as f:
         rp = json.load(f)
     P = proxy.get()
-    spec = {"entry": rp["entry"], "choices": rp["choices"], "seed": rp["seed"], "fault": rp["fault"]}
+    spec = {"entry": rp["entry"], "choices": rp["choices"], "seed": rp["seed"], "fault": rp["fault"], "tenalg": rp.get("tenalg", "core")}
     r = execute(spec, P, fault=rp["fault"], observe=True)
     fps = sorted(fingerprint(spec["entry"], p, k, r["tags"]) for p, k in r["diffs"])
     dg = digest_obj([r["names"], r["outcome"], [list(d) for d in r["diffs"]]])
@@ -417,6 +432,7 @@ def coverage(agg, wall):
         "fault_free_outcomes": {k.split(":", 1)[1]: v for k, v in sorted(cnt.items()) if k.startswith("outcome_fault_free:")},
         "rare_condition_probes": {k[len("probe:") :]: v for k, v in sorted(cnt.items()) if k.startswith("probe:")},
         "entries": {k[len("entry:") :]: v for k, v in sorted(cnt.items()) if k.startswith("entry:")},
+        "tenalg_backend_of_workloads": {k[len("tenalg:") :]: v for k, v in sorted(cnt.items()) if k.startswith("tenalg:")},
         "violating_workloads": cnt.get("violating_runs", 0),
         "exhaustive": False,
     }
